@@ -178,69 +178,14 @@ func (c14) Enumerate(tier string, seed int64, yield func(string, core.Case) bool
 		}
 	}
 	// MC: a seeded catalogue of mixed clause/cardinality problems (5..10 variables) and ALL their
-	// one-edit neighbours (delete a constraint, flip a literal, degree +-1), each under every
-	// heuristic choice list with <=1 deviation.
+	// one-edit neighbours, each under every heuristic choice list with <=1 deviation.
 	{
 		nseeds := 1500
 		if thorough {
 			nseeds = 15000
 		}
-		g := &lcg{s: uint64(seed)*7919 + 17}
-		for sd := 0; sd < nseeds; sd++ {
-			n := 5 + int(g.next()%6)
-			m := 3 + int(g.next()%uint64(2*n))
-			var cs []Con
-			for i := 0; i < m; i++ {
-				k := 2 + int(g.next()%4)
-				if k > n {
-					k = n
-				}
-				used := map[int]bool{}
-				var l []int
-				for len(l) < k {
-					v := 1 + int(g.next()%uint64(n))
-					if used[v] {
-						continue
-					}
-					used[v] = true
-					if g.next()&1 == 0 {
-						v = -v
-					}
-					l = append(l, v)
-				}
-				card := 1
-				if g.next()%3 != 0 {
-					card = 1 + int(g.next()%uint64(k))
-				}
-				cs = append(cs, Con{T: "atl", L: l, K: card})
-			}
-			name := fmt.Sprintf("MC/seed%d", sd)
-			if !emit(name, Prob{Front: "pb", N: n, Cs: cpCons(cs...)}, 1, false) {
-				return
-			}
-			for i := range cs {
-				g2 := append(cpCons(cs[:i]...), cpCons(cs[i+1:]...)...)
-				if !emit(name+"-del", Prob{Front: "pb", N: n, Cs: g2}, 1, false) {
-					return
-				}
-				for dk := -1; dk <= 1; dk += 2 {
-					g2 = cpCons(cs...)
-					g2[i].K += dk
-					if g2[i].K < 1 || g2[i].K > len(g2[i].L) {
-						continue
-					}
-					if !emit(name+"-deg", Prob{Front: "pb", N: n, Cs: g2}, 1, false) {
-						return
-					}
-				}
-				for j := range cs[i].L {
-					g2 = cpCons(cs...)
-					g2[i].L[j] = -g2[i].L[j]
-					if !emit(name+"-flip", Prob{Front: "pb", N: n, Cs: g2}, 1, false) {
-						return
-					}
-				}
-			}
+		if !enumMixedCatalogue(seed, nseeds, false, func(name string, p Prob) bool { return emit(name, p, 1, false) }) {
+			return
 		}
 	}
 	pbn := 0
